@@ -1,1 +1,382 @@
-import Soa.Model.Exec
+import Soa.Model.Vec
+import Soa.Spec.Vec
+import Soa.Lemmas.PerField
+import Soa.Lemmas.Loops
+import Soa.Lemmas.SpecRetain
+/-!
+# C01 — the SoA vector is observationally a `Vec<T>`
+
+For every struct shape (any number of fields, any nesting), every container `c` in lockstep
+and every argument: the model of the generated method and the std operation on the rows
+agree on the panic flag, the returned value, the `None` answer and the contents left
+behind, and the container stays in lockstep with its shape.  Property theorems only; the
+helper lemmas live in `Soa/Lemmas`.
+-/
+namespace Soa.C01
+open Soa
+
+/-- observational refinement of one call: model outcome vs `Vec<T>` outcome -/
+structure Refines (c : Cols) (o : Model.Out) (s : Spec.Out) : Prop where
+  panicked : o.panicked = s.panicked
+  st : o.st.rows = s.st
+  ret : o.ret.map Cols.rows = s.ret
+  isNone : o.isNone = s.isNone
+  lock : ∃ m, o.st.lock m
+  same : c.same o.st
+  atomic : o.panicked = true → o.st = c
+
+macro "atom" : tactic => `(tactic| (intro hh; first | rfl | (simp_all; done) | (simp at hh)))
+
+variable {c e : Cols} {n : Nat}
+
+theorem push (hc : c.lock n) (he : e.lock 1) (hs : c.same e) :
+    Refines c (Model.push c e) (Spec.push c.rows e.rows) := by
+  unfold Model.push Spec.push Spec.std
+  cases perField appendOp c e n 1 hc he hs with
+  | ok s hrun _ hp hst _ hl _ hsm _ =>
+    rw [hrun]
+    exact ⟨hp, hst, rfl, rfl, ⟨_, hl⟩, hsm, by atom⟩
+  | fail _ hfail _ _ _ => simp [appendOp] at hfail
+
+theorem insert (dr : Bool) (i : Nat) (hc : c.lock n) (he : e.lock 1) (hs : c.same e) :
+    Refines c (Model.insert dr c i e) (Spec.insert dr c.rows i e.rows) := by
+  unfold Model.insert Spec.insert Spec.std
+  rw [firstLen_lock c n hc]
+  cases perField (insertOp i) c e n 1 hc he hs with
+  | ok s hrun hfail hp hst _ hl _ hsm _ =>
+    have : ¬ i > n := by simpa [insertOp] using hfail
+    rw [hrun]
+    simp only [this, ↓reduceIte, hp]
+    exact ⟨rfl, hst, rfl, rfl, ⟨_, hl⟩, hsm, by atom⟩
+  | fail hrun hfail _ _ _ =>
+    have : i > n := by simpa [insertOp] using hfail
+    rw [hrun]
+    simp only [this, ↓reduceIte]
+    exact ⟨rfl, rfl, rfl, rfl, ⟨n, hc⟩, same_refl c, by atom⟩
+
+theorem replace (dr : Bool) (i : Nat) (hc : c.lock n) (he : e.lock 1) (hs : c.same e) :
+    Refines c (Model.replace dr c i e) (Spec.replace dr c.rows i e.rows) := by
+  unfold Model.replace Spec.replace Spec.std
+  rw [firstLen_lock c n hc]
+  cases perField (replaceOp i) c e n 1 hc he hs with
+  | ok s hrun hfail hp hst hout hl _ hsm _ =>
+    have : ¬ i ≥ n := by simpa [replaceOp] using hfail
+    rw [hrun]
+    simp only [this, ↓reduceIte, hp, Bool.false_eq_true]
+    exact ⟨rfl, hst, by simp [hout], rfl, ⟨_, hl⟩, hsm, by atom⟩
+  | fail hrun hfail _ _ _ =>
+    have : i ≥ n := by simpa [replaceOp] using hfail
+    rw [hrun]
+    simp only [this, ↓reduceIte]
+    exact ⟨rfl, rfl, rfl, rfl, ⟨n, hc⟩, same_refl c, by atom⟩
+
+theorem remove (i : Nat) (hc : c.lock n) :
+    Refines c (Model.remove c i) (Spec.remove c.rows i) := by
+  unfold Model.remove Spec.remove Spec.std Model.noArgs
+  cases perField0 (removeOp i) c n hc with
+  | ok s hrun _ hp hst hout hl _ hsm _ =>
+    rw [rows_noArgs c n hc] at hrun
+    rw [hrun]
+    simp only [hp, Bool.false_eq_true, ↓reduceIte]
+    exact ⟨rfl, hst, by simp [hout], rfl, ⟨_, hl⟩, hsm, by atom⟩
+  | fail hrun _ hp hst _ =>
+    rw [rows_noArgs c n hc] at hrun
+    rw [hrun]
+    simp only [hp, ↓reduceIte, hst]
+    exact ⟨rfl, rfl, rfl, rfl, ⟨n, hc⟩, same_refl c, by atom⟩
+
+theorem swapRemove (i : Nat) (hc : c.lock n) :
+    Refines c (Model.swapRemove c i) (Spec.swapRemove c.rows i) := by
+  unfold Model.swapRemove Spec.swapRemove Spec.std Model.noArgs
+  cases perField0 (swapRemoveOp i) c n hc with
+  | ok s hrun _ hp hst hout hl _ hsm _ =>
+    rw [rows_noArgs c n hc] at hrun
+    rw [hrun]
+    simp only [hp, Bool.false_eq_true, ↓reduceIte]
+    exact ⟨rfl, hst, by simp [hout], rfl, ⟨_, hl⟩, hsm, by atom⟩
+  | fail hrun _ hp hst _ =>
+    rw [rows_noArgs c n hc] at hrun
+    rw [hrun]
+    simp only [hp, ↓reduceIte, hst]
+    exact ⟨rfl, rfl, rfl, rfl, ⟨n, hc⟩, same_refl c, by atom⟩
+
+theorem pop (hc : c.lock n) :
+    Refines c (Model.pop c) (Spec.pop c.rows) := by
+  unfold Model.pop Spec.pop Spec.std Model.noArgs
+  rw [firstLen_lock c n hc]
+  cases perField0 popOp c n hc with
+  | ok s hrun hfail hp hst hout hl _ hsm _ =>
+    have : ¬ n = 0 := by
+      have : 0 < n := by simpa [popOp] using hfail
+      omega
+    rw [rows_noArgs c n hc] at hrun
+    rw [hrun]
+    simp only [this, ↓reduceIte, hp, Bool.false_eq_true]
+    exact ⟨rfl, hst, by simp [hout], rfl, ⟨_, hl⟩, hsm, by atom⟩
+  | fail hrun hfail _ _ _ =>
+    have : n = 0 := by
+      have : ¬ 0 < n := by simpa [popOp] using hfail
+      omega
+    rw [rows_noArgs c n hc] at hrun
+    rw [hrun]
+    simp only [this, ↓reduceIte]
+    exact ⟨rfl, rfl, rfl, rfl, ⟨n, hc⟩, same_refl c, by atom⟩
+
+theorem splitOff (i : Nat) (hc : c.lock n) :
+    Refines c (Model.splitOff c i) (Spec.splitOff c.rows i) := by
+  unfold Model.splitOff Spec.splitOff Spec.std Model.noArgs
+  cases perField0 (splitOffOp i) c n hc with
+  | ok s hrun _ hp hst hout hl _ hsm _ =>
+    rw [rows_noArgs c n hc] at hrun
+    rw [hrun]
+    simp only [hp, Bool.false_eq_true, ↓reduceIte]
+    exact ⟨rfl, hst, by simp [hout], rfl, ⟨_, hl⟩, hsm, by atom⟩
+  | fail hrun _ hp hst _ =>
+    rw [rows_noArgs c n hc] at hrun
+    rw [hrun]
+    simp only [hp, ↓reduceIte, hst]
+    exact ⟨rfl, rfl, rfl, rfl, ⟨n, hc⟩, same_refl c, by atom⟩
+
+theorem truncate (dr : Bool) (k : Nat) (hc : c.lock n) :
+    Refines c (Model.truncate dr c k) (Spec.truncate dr c.rows k) := by
+  unfold Model.truncate Spec.truncate
+  rw [firstLen_lock c n hc]
+  have h := truncateLoop_ok dr k (n - k + 1) n c {} hc (by omega)
+  exact ⟨h.1, h.2.1, by simp [h.2.2.2.2.1], h.2.2.2.2.2, ⟨_, h.2.2.1⟩, h.2.2.2.1, by intro hh; rw [h.1] at hh; cases hh⟩
+
+theorem clear (dr : Bool) (hc : c.lock n) :
+    Refines c (Model.clear dr c) (Spec.clear dr c.rows) := truncate dr 0 hc
+
+/-- dropping the vector (its `Drop` impl) destroys exactly its elements -/
+theorem dropVec (dr : Bool) (hc : c.lock n) :
+    Refines c (Model.dropVec dr c) (Spec.dropVec dr c.rows) := truncate dr 0 hc
+
+/-- `append`: the receiver gets the rows of `other` appended; `other` is left empty -/
+theorem append {d : Cols} {k : Nat} (hc : c.lock n) (hd : d.lock k) (hs : c.same d) :
+    Refines c (Model.append c d) (Spec.append c.rows d.rows) ∧
+      (Model.append c d).other.map Cols.rows = (Spec.append c.rows d.rows).other := by
+  unfold Model.append Spec.append
+  cases perField appendOp c d n k hc hd hs with
+  | ok s hrun _ hp hst hout hl _ hsm _ =>
+    simp only [appendOp, PolyOp.ofTotal_run, ↓reduceIte, Option.some.injEq] at hrun
+    subst hrun
+    exact ⟨⟨hp, hst, rfl, rfl, ⟨_, hl⟩, hsm, by atom⟩, by simp [hout]⟩
+  | fail _ hfail _ _ _ => simp [appendOp] at hfail
+
+/-- `retain` / `retain_mut` (with a callback that does not write): the elements kept are
+    those for which the callback answered `true`, in order; the callback is shown every
+    element exactly once, in index order -/
+theorem retain (dr : Bool) (keep : Nat → Bool) (hc : c.lock n) :
+    Refines c (Model.retain dr c keep none (fun _ _ => none)) (Spec.retain dr c.rows keep none (fun _ _ => none)) ∧
+      (Model.retain dr c keep none (fun _ _ => none)).vis = (Spec.retain dr c.rows keep none (fun _ _ => none)).vis ∧
+      (Spec.retain dr c.rows keep none (fun _ _ => none)).vis = c.rows.map Elem.ids := by
+  have hlen := rows_len n c hc
+  have hL := retainLoop_rows keep none n n 0 0 c [] [] {} [] hc (by omega) (by simp)
+  have hF := RetainIdx.loop_filter keep c.rows
+  rw [hlen] at hF
+  simp only at hL hF
+  have hS := Spec.retain_none dr keep c.rows
+  unfold Model.retain
+  rw [firstLen_lock c n hc]
+  dsimp only
+  generalize Model.retainLoop keep none (fun _ _ => none) n 0 0 c [] {} [] = L at hL ⊢
+  generalize Spec.retain dr c.rows keep none (fun _ _ => none) = S at hS ⊢
+  generalize RetainIdx.loop keep none n 0 0 c.rows [] = R at hL hF
+  obtain ⟨hL1, hL2, hL3, hL4, hL5, hL6, _, _⟩ := hL
+  obtain ⟨hF1, hF2, hF3, _, _⟩ := hF
+  obtain ⟨hS1, hS2, hS3, hS4, hS5⟩ := hS
+  have hb : L.boom = false := by rw [hL4, hF1]
+  by_cases hd : L.del > 0
+  · simp only [hb, hd, Bool.false_eq_true, ↓reduceIte]
+    have ht := truncateLoop_ok dr (n - L.del) (n - (n - L.del) + 1) n L.c {} hL5 (by omega)
+    unfold Model.truncate
+    rw [firstLen_lock _ n hL5]
+    simp only at ht
+    refine ⟨⟨by rw [hS1]; exact ht.1, ?_, by rw [ht.2.2.2.2.1, hS4]; rfl, by rw [ht.2.2.2.2.2, hS5],
+      ⟨_, ht.2.2.1⟩, same_trans _ _ _ hL6 ht.2.2.2.1, by intro hh; rw [ht.1] at hh; cases hh⟩, ?_, hS3⟩
+    · show (Model.truncateLoop dr (n - L.del) (n - (n - L.del) + 1) L.c {}).st.rows = S.st
+      rw [ht.2.1, hL1, hL2, hS2]; exact hF3
+    · show L.vis = S.vis
+      rw [hL3, hF2, hS3]
+  · simp only [hb, hd, Bool.false_eq_true, ↓reduceIte]
+    refine ⟨⟨by rw [hS1], ?_, by rw [hS4]; rfl, by rw [hS5], ⟨n, hL5⟩, hL6, by atom⟩, ?_, hS3⟩
+    · show L.c.rows = S.st
+      have hz : R.2.1 = 0 := by rw [← hL2]; omega
+      have hRl : R.1.length = n := by rw [← hL1]; exact rows_len n _ hL5
+      rw [hz, Nat.sub_zero, List.take_of_length_le (by omega)] at hF3
+      rw [hL1, hS2]; exact hF3
+    · show L.vis = S.vis
+      rw [hL3, hF2, hS3]
+
+/-- `Extend<T>` / `FromIterator`: pushing the items one by one appends their rows -/
+theorem extend : ∀ (es : List Cols) (c : Cols) (n : Nat), c.lock n →
+    (∀ e ∈ es, e.lock 1 ∧ c.same e) →
+    Refines c (Model.extend c es) (Spec.extend c.rows (es.map Cols.rows).flatten)
+  | [], c, n, hc, _ => by
+    simp only [Model.extend, Spec.extend, List.map_nil, List.flatten_nil, List.append_nil]
+    exact ⟨rfl, rfl, rfl, rfl, ⟨n, hc⟩, same_refl c, by atom⟩
+  | e :: es, c, n, hc, he => by
+    have hp := push hc (he e (by simp)).1 (he e (by simp)).2
+    simp only [Model.extend]
+    have hpp : (Model.push c e).panicked = false := by
+      rw [hp.panicked]; simp [Spec.push, Spec.std, appendOp]
+    simp only [hpp, Bool.false_eq_true, ↓reduceIte]
+    obtain ⟨m, hm⟩ := hp.lock
+    have ih := extend es (Model.push c e).st m hm (fun x hx =>
+      ⟨(he x (by simp [hx])).1, same_trans _ _ _ (same_symm _ _ hp.same) (he x (by simp [hx])).2⟩)
+    have hst : (Model.push c e).st.rows = c.rows ++ e.rows := by
+      rw [hp.st]; simp [Spec.push, Spec.std, appendOp]
+    simp only [Spec.extend, hst] at ih ⊢
+    refine ⟨ih.panicked, ?_, ih.ret, ih.isNone, ih.lock, same_trans _ _ _ hp.same ih.same, by intro hh; rw [ih.panicked] at hh; simp [Spec.extend] at hh⟩
+    rw [ih.st]; simp
+
+theorem resize (dr : Bool) (k : Nat) (hc : c.lock n) (he : e.lock 1) (hs : c.same e) :
+    Refines c (Model.resize c k e) (Spec.resize dr c.rows k e.rows) := by
+  unfold Model.resize Spec.resize
+  have hlen := rows_len n c hc
+  cases perField (resizeOp k) c e n 1 hc he hs with
+  | ok s hrun _ hp hst _ hl _ hsm _ =>
+    simp only [resizeOp, PolyOp.ofTotal_run, ↓reduceIte, Option.some.injEq] at hrun
+    subst hrun
+    by_cases hk : k ≤ c.rows.length
+    · simp only [hk, ↓reduceIte] at hst ⊢
+      exact ⟨hp, hst, rfl, rfl, ⟨_, hl⟩, hsm, by atom⟩
+    · simp only [hk, ↓reduceIte] at hst ⊢
+      exact ⟨hp, hst, rfl, rfl, ⟨_, hl⟩, hsm, by atom⟩
+  | fail _ hfail _ _ _ => simp [resizeOp] at hfail
+
+theorem extendFromSlice {d : Cols} {k : Nat} (hc : c.lock n) (hd : d.lock k) (hs : c.same d) :
+    Refines c (Model.extendFromSlice c d) (Spec.extendFromSlice c.rows d.rows) := by
+  unfold Model.extendFromSlice Spec.extendFromSlice
+  cases perField extendCloneOp c d n k hc hd hs with
+  | ok s hrun _ hp hst _ hl _ hsm _ =>
+    simp only [extendCloneOp, PolyOp.ofTotal_run, ↓reduceIte, Option.some.injEq] at hrun
+    subst hrun
+    exact ⟨hp, hst, rfl, rfl, ⟨_, hl⟩, hsm, by atom⟩
+  | fail _ hfail _ _ _ => simp [extendCloneOp] at hfail
+
+theorem toVec (hc : c.lock n) : Refines c (Model.toVec c) (Spec.toVec c.rows) :=
+  ⟨rfl, rfl, rfl, rfl, ⟨n, hc⟩, same_refl c, by atom⟩
+
+/-! ## histories -/
+
+/-- element-level operations on one vector; element arguments are one-row trees -/
+inductive Op where
+  | push (e : Cols) | pop | insert (i : Nat) (e : Cols) | replace (i : Nat) (e : Cols)
+  | remove (i : Nat) | swapRemove (i : Nat) | truncate (k : Nat) | clear
+  | retain (keep : Nat → Bool) | extend (es : List Cols) | resize (k : Nat) (e : Cols)
+  | splitOff (i : Nat) | extendFromSlice (d : Cols) | append (d : Cols)
+
+/-- arguments have the container's shape; elements are single rows -/
+def Op.wf (c : Cols) : Op → Prop
+  | .push e | .insert _ e | .replace _ e | .resize _ e => e.lock 1 ∧ c.same e
+  | .extend es => ∀ e ∈ es, e.lock 1 ∧ c.same e
+  | .extendFromSlice d | .append d => (∃ k, d.lock k) ∧ c.same d
+  | _ => True
+
+def mstep (dr : Bool) (c : Cols) : Op → Model.Out
+  | .push e => Model.push c e | .pop => Model.pop c | .insert i e => Model.insert dr c i e
+  | .replace i e => Model.replace dr c i e | .remove i => Model.remove c i
+  | .swapRemove i => Model.swapRemove c i | .truncate k => Model.truncate dr c k
+  | .clear => Model.clear dr c | .retain keep => Model.retain dr c keep none (fun _ _ => none)
+  | .extend es => Model.extend c es | .resize k e => Model.resize c k e
+  | .splitOff i => Model.splitOff c i | .extendFromSlice d => Model.extendFromSlice c d
+  | .append d => Model.append c d
+
+def sstep (dr : Bool) (rs : List Elem) : Op → Spec.Out
+  | .push e => Spec.push rs e.rows | .pop => Spec.pop rs | .insert i e => Spec.insert dr rs i e.rows
+  | .replace i e => Spec.replace dr rs i e.rows | .remove i => Spec.remove rs i
+  | .swapRemove i => Spec.swapRemove rs i | .truncate k => Spec.truncate dr rs k
+  | .clear => Spec.clear dr rs | .retain keep => Spec.retain dr rs keep none (fun _ _ => none)
+  | .extend es => Spec.extend rs (es.map Cols.rows).flatten | .resize k e => Spec.resize dr rs k e.rows
+  | .splitOff i => Spec.splitOff rs i | .extendFromSlice d => Spec.extendFromSlice rs d.rows
+  | .append d => Spec.append rs d.rows
+
+/-- every operation, with arbitrary (valid or invalid) arguments, refines `Vec<T>` -/
+theorem step_refines (dr : Bool) (op : Op) (hc : c.lock n) (hw : op.wf c) :
+    Refines c (mstep dr c op) (sstep dr c.rows op) := by
+  cases op with
+  | push e => exact push hc hw.1 hw.2
+  | pop => exact pop hc
+  | insert i e => exact insert dr i hc hw.1 hw.2
+  | replace i e => exact replace dr i hc hw.1 hw.2
+  | remove i => exact remove i hc
+  | swapRemove i => exact swapRemove i hc
+  | truncate k => exact truncate dr k hc
+  | clear => exact clear dr hc
+  | retain keep => exact (retain dr keep hc).1
+  | extend es => exact extend es c n hc hw
+  | resize k e => exact resize dr k hc hw.1 hw.2
+  | splitOff i => exact splitOff i hc
+  | extendFromSlice d => obtain ⟨⟨k, hk⟩, hs⟩ := hw; exact extendFromSlice hc hk hs
+  | append d => obtain ⟨⟨k, hk⟩, hs⟩ := hw; exact (append hc hk hs).1
+
+theorem wf_same {c c' : Cols} (h : c.same c') (op : Op) (hw : op.wf c) : op.wf c' := by
+  have hs := same_symm _ _ h
+  cases op <;> simp only [Op.wf] at hw ⊢
+  all_goals first
+    | exact ⟨hw.1, same_trans _ _ _ hs hw.2⟩
+    | exact fun e he => ⟨(hw e he).1, same_trans _ _ _ hs (hw e he).2⟩
+    | trivial
+
+/-- the observable part of one call -/
+def obsM (o : Model.Out) : Bool × Option (List Elem) × Bool := (o.panicked, o.ret.map Cols.rows, o.isNone)
+def obsS (o : Spec.Out) : Bool × Option (List Elem) × Bool := (o.panicked, o.ret, o.isNone)
+
+def mrun (dr : Bool) : Cols → List Op → List (Bool × Option (List Elem) × Bool) × Cols
+  | c, [] => ([], c)
+  | c, op :: ops => let o := mstep dr c op; let r := mrun dr o.st ops; (obsM o :: r.1, r.2)
+
+def srun (dr : Bool) : List Elem → List Op → List (Bool × Option (List Elem) × Bool) × List Elem
+  | rs, [] => ([], rs)
+  | rs, op :: ops => let o := sstep dr rs op; let r := srun dr o.st ops; (obsS o :: r.1, r.2)
+
+/-- **C01, histories.**  For every finite sequence of operations with arbitrary arguments,
+    started from any lockstep container of any shape: the sequence of observations (panic
+    flag, returned value, `None`) and the final contents are those of the same sequence on
+    the `Vec<T>` of rows; and the final container is in lockstep (C02). -/
+theorem history (dr : Bool) : ∀ (ops : List Op) (c : Cols) (n : Nat), c.lock n → (∀ op ∈ ops, op.wf c) →
+    (mrun dr c ops).1 = (srun dr c.rows ops).1 ∧ (mrun dr c ops).2.rows = (srun dr c.rows ops).2 ∧
+      (∃ m, (mrun dr c ops).2.lock m) ∧ c.same (mrun dr c ops).2
+  | [], c, n, hc, _ => ⟨rfl, rfl, ⟨n, hc⟩, same_refl c⟩
+  | op :: ops, c, n, hc, hw => by
+    have h := step_refines dr op hc (hw op (by simp))
+    obtain ⟨m, hm⟩ := h.lock
+    have ih := history dr ops (mstep dr c op).st m hm
+      (fun o ho => wf_same h.same o (hw o (by simp [ho])))
+    simp only [mrun, srun]
+    rw [h.st] at ih
+    refine ⟨?_, ih.2.1, ih.2.2.1, same_trans _ _ _ h.same ih.2.2.2⟩
+    rw [ih.1]
+    simp [obsM, obsS, h.panicked, h.ret, h.isNone]
+
+/-- from `new()`: the empty container of any well-formed shape is in lockstep with no rows -/
+theorem empty_lock : ∀ sh : Shape, sh.wf → sh.empty.lock 0
+  | .leaf _, _ => by simp [Shape.empty, Shape.fill]
+  | .nest fs, h => by
+    rw [Shape.wf_nest] at h
+    simp only [Shape.empty, Shape.fill, lock_nest]
+    refine ⟨?_, go fs h.2⟩
+    cases fs with
+    | nil => exact absurd rfl h.1
+    | cons f fs => simp [Shape.fill.fillL]
+where go : ∀ fs : List Shape, (∀ f ∈ fs, f.wf) → ∀ c ∈ Shape.fill.fillL [] fs, c.lock 0
+  | [], _ => by simp [Shape.fill.fillL]
+  | f :: fs, h => by
+    intro c hc
+    simp only [Shape.fill.fillL, List.mem_cons] at hc
+    cases hc with
+    | inl e => subst e; exact empty_lock f (h f (by simp))
+    | inr e => exact go fs (fun x hx => h x (by simp [hx])) c e
+
+/-! ## non-vacuity: a concrete 3-field, nested container of length 2 meets the hypotheses -/
+
+def exC : Cols := .nest [.leaf [8, 16], .nest [.leaf [9, 17], .leaf [10, 18]], .leaf [11, 19]]
+def exE : Cols := .nest [.leaf [24], .nest [.leaf [25], .leaf [26]], .leaf [27]]
+example : exC.lock 2 ∧ exE.lock 1 ∧ exC.same exE := by
+  simp [exC, exE, Cols.lock, Cols.same, Cols.same.sameL]
+example : (Model.insert false exC 1 exE).st.rows = (Spec.insert false exC.rows 1 exE.rows).st :=
+  (insert false 1 (n := 2) (by simp [exC, Cols.lock]) (by simp [exE, Cols.lock])
+    (by simp [exC, exE, Cols.same, Cols.same.sameL])).st
+
+end Soa.C01
